@@ -5,3 +5,7 @@ TRUSTED = ("Trusted base: the rewriter and shims preserve the semantics of the c
 add("C03", "SEQ", "model_checking", "explicit-state BFS over request histories on the implementation, to closure",
     "All histories of tag pushes, digest pushes, tag deletes and digest deletes over 2 manifests x 2-3 tags are explored breadth-first on the real handler (both stores) until the canonical state set is closed; in every distinct state tag resolution, the listing and the whole n x last matrix are compared with a map model. Closure means unbounded history length inside the universe.",
     TRUSTED, "DESIGN.md section 4 C03")
+
+add("C18", "SEQ", "model_checking", "explicit-state BFS over operation sequences on the real types.Index, to closure",
+    "All sequences of AddDesc (untagged, tag, referrer-subject; with and without the children option), RmDesc (digest, digest+tag, tag alone, subject alone) and AddChildren over 2 (quick) / 3 (thorough) digests, 2 tags and 2 subjects are explored breadth-first on the real type until the exact dump (entry order preserved) is closed; in every distinct state GetDesc, GetByAnnotation and Copy are checked against the invariants of the statement and a tag map model.",
+    TRUSTED, "DESIGN.md section 4 C18")
